@@ -235,7 +235,7 @@ impl Property for C20 {
         if sc.mode != 0 {
             return vec![];
         }
-        let mut out: Vec<Scenario> = crate::props::c10::shrink_ops(&sc.schedule).into_iter().map(|schedule| Scenario { schedule, ..sc.clone() }).collect();
+        let mut out: Vec<Scenario> = crate::core::shrink_list(&sc.schedule).into_iter().map(|schedule| Scenario { schedule, ..sc.clone() }).collect();
         for s in 0..sc.sources.len() {
             for o in 0..sc.sources[s].len() {
                 let mut c = sc.clone();
